@@ -762,7 +762,7 @@ class C09(base.Engine):
     pid = 'C09'
     level = 'exploration'
     technique = 'deterministic simulation: seeded file-system histories with simulator-assigned mtimes (monotone / coarse / backward / skewed clocks), host restarts on a warm pickle cache; pristine-process empty-cache oracle; counterfactual replay for timestamp findings'
-    budgets = (90, 1500)
+    budgets = (70, 1500)
     assumptions = [
         'mutations never land inside a query (the read-then-stat window in parso is out of scope)',
         'torn pickles of a writer killed mid-write are not injected',
